@@ -12,6 +12,7 @@ import translate_kernels
 import translate_glue
 import translate_ctor
 import translate_trig
+import translate_context
 
 
 def gen_arith():
@@ -58,4 +59,8 @@ def gen_trig():
     return translate_trig.translate(os.path.join(PKG, "pba/intervals/methods.py"), os.path.join(PKG, "pba/intervals/number.py"))
 
 
-ALL = [("GenTrig", gen_trig), ("GenCtor", gen_ctor), ("GenGlue", gen_glue), ("GenKernels", gen_kernels), ("GenFree", gen_free), ("GenParametric", gen_parametric), ("GenDispatch", gen_dispatch), ("GenArith", gen_arith), ("GenParams", gen_params), ("GenHedge", gen_hedge), ("GenKS", gen_ks)]
+def gen_ctx():
+    return translate_context.translate(os.path.join(PKG, "pba/context.py"))
+
+
+ALL = [("GenCtx", gen_ctx), ("GenTrig", gen_trig), ("GenCtor", gen_ctor), ("GenGlue", gen_glue), ("GenKernels", gen_kernels), ("GenFree", gen_free), ("GenParametric", gen_parametric), ("GenDispatch", gen_dispatch), ("GenArith", gen_arith), ("GenParams", gen_params), ("GenHedge", gen_hedge), ("GenKS", gen_ks)]
